@@ -451,6 +451,14 @@ public:
     // immediate dominance tree
     idom_tree_t idom_tree;
 
+    // Forget the results of any previous run: the assertions proved
+    // and the invariants stored by an earlier run() (possibly from
+    // different initial states) must not be reported for this one.
+    m_unproven_assertions.clear();
+    m_proved_assertions.clear();
+    m_pre_invariants.clear();
+    m_post_invariants.clear();
+
     crab::CrabStats::resume("CombinedForwardBackward.GatherAssertions");
     gather_assertions();
     CRAB_LOG("backward", crab::outs()
